@@ -181,10 +181,44 @@ impl SimWalk {
               if q.is_empty() {
                 break;
               }
-              let i = hooks.pick_entry(q.len()).min(q.len() - 1);
+              // the walker descends into a directory only after the visitor has seen the
+              // directory itself: its entries cannot be taken before
+              let is_dir = |d: &DirEntry| d.file_type().is_some_and(|t| t.is_dir());
+              let dirs: Vec<std::path::PathBuf> = q
+                .iter()
+                .filter_map(|e| e.as_ref().ok())
+                .filter(|d| is_dir(d))
+                .map(|d| d.path().to_path_buf())
+                .collect();
+              let ready: Vec<usize> = (0..q.len())
+                .filter(|&i| match &q[i] {
+                  Ok(d) => !dirs
+                    .iter()
+                    .any(|dir| d.path() != dir && d.path().starts_with(dir)),
+                  Err(_) => true,
+                })
+                .collect();
+              let i = if ready.is_empty() {
+                0
+              } else {
+                ready[hooks.pick_entry(ready.len()).min(ready.len() - 1)]
+              };
               q.remove(i)
             };
+            let dir_taken = match &entry {
+              Ok(d) if d.file_type().is_some_and(|t| t.is_dir()) => Some(d.path().to_path_buf()),
+              _ => None,
+            };
             let ret = std::panic::catch_unwind(std::panic::AssertUnwindSafe(|| visitor(entry)));
+            if let (Ok(WalkState::Skip), Some(dir)) = (&ret, &dir_taken) {
+              // "do not descend": what is below the directory is never found
+              hooks.note("walk-skip-dir", &dir.to_string_lossy());
+              let mut q = queue.lock().unwrap();
+              q.retain(|e| match e {
+                Ok(d) => !(d.path() != dir && d.path().starts_with(dir)),
+                Err(_) => true,
+              });
+            }
             match ret {
               Ok(WalkState::Quit) => {
                 hooks.note("walk-quit", "");
